@@ -188,7 +188,7 @@ class AuthHandler:
         m = Message()
         m.add_byte(cMSG_SERVICE_REQUEST)
         m.add_string("ssh-userauth")
-        self.transport._send_message(m)
+        self.transport._send_user_message(m)
 
     def _disconnect_service_not_available(self):
         m = Message()
@@ -270,14 +270,14 @@ class AuthHandler:
             m = Message()
             m.add_byte(cMSG_SERVICE_ACCEPT)
             m.add_string(service)
-            self.transport._send_message(m)
+            self.transport._send_user_message(m)
             banner, language = self.transport.server_object.get_banner()
             if banner:
                 m = Message()
                 m.add_byte(cMSG_USERAUTH_BANNER)
                 m.add_string(banner)
                 m.add_string(language)
-                self.transport._send_message(m)
+                self.transport._send_user_message(m)
             return
         # dunno this one
         self._disconnect_service_not_available()
@@ -410,7 +410,7 @@ class AuthHandler:
                 sshgss = GSSAuth(self.auth_method, self.gss_deleg_creds)
                 m.add_bytes(sshgss.ssh_gss_oids())
                 # send the supported GSSAPI OIDs to the server
-                self.transport._send_message(m)
+                self.transport._send_user_message(m)
                 ptype, m = self.transport.packetizer.read_message()
                 if ptype == MSG_USERAUTH_BANNER:
                     self._parse_userauth_banner(m)
@@ -430,7 +430,7 @@ class AuthHandler:
                         )
                     except GSS_EXCEPTIONS as e:
                         return self._handle_local_gss_failure(e)
-                    self.transport._send_message(m)
+                    self.transport._send_user_message(m)
                     while True:
                         ptype, m = self.transport.packetizer.read_message()
                         if ptype == MSG_USERAUTH_GSSAPI_TOKEN:
@@ -503,7 +503,7 @@ Error Message: {}
                 raise SSHException(
                     'Unknown auth method "{}"'.format(self.auth_method)
                 )
-            self.transport._send_message(m)
+            self.transport._send_user_message(m)
         else:
             self._log(
                 DEBUG, 'Service request "{}" accepted (?)'.format(service)
@@ -527,7 +527,7 @@ Error Message: {}
             else:
                 m.add_boolean(False)
                 self.auth_fail_count += 1
-        self.transport._send_message(m)
+        self.transport._send_user_message(m)
         if self.auth_fail_count >= 10:
             self._disconnect_no_more_auth()
         if result == AUTH_SUCCESSFUL:
@@ -544,7 +544,7 @@ Error Message: {}
         for p in q.prompts:
             m.add_string(p[0])
             m.add_boolean(p[1])
-        self.transport._send_message(m)
+        self.transport._send_user_message(m)
 
     def _parse_userauth_request(self, m):
         if not self.transport.server_mode:
@@ -553,7 +553,7 @@ Error Message: {}
             m.add_byte(cMSG_USERAUTH_FAILURE)
             m.add_string("none")
             m.add_boolean(False)
-            self.transport._send_message(m)
+            self.transport._send_user_message(m)
             return
         if self.authenticated:
             # ignore
@@ -641,7 +641,7 @@ Error Message: {}
                     m.add_byte(cMSG_USERAUTH_PK_OK)
                     m.add_string(algorithm)
                     m.add_string(keyblob)
-                    self.transport._send_message(m)
+                    self.transport._send_user_message(m)
                     return
                 sig = Message(m.get_binary())
                 blob = self._get_session_blob(
@@ -709,7 +709,7 @@ Error Message: {}
                 MSG_USERAUTH_REQUEST,
                 MSG_SERVICE_REQUEST,
             )
-            self.transport._send_message(m)
+            self.transport._send_user_message(m)
             return
         elif method == "gssapi-keyex" and gss_auth:
             mic_token = m.get_string()
@@ -803,7 +803,7 @@ Error Message: {}
         m.add_int(len(response_list))
         for r in response_list:
             m.add_string(r)
-        self.transport._send_message(m)
+        self.transport._send_user_message(m)
 
     def _parse_userauth_info_response(self, m):
         if not self.transport.server_mode:
@@ -936,7 +936,7 @@ class GssapiWithMicAuthHandler:
                 MSG_USERAUTH_GSSAPI_MIC,
                 MSG_USERAUTH_REQUEST,
             )
-            self.transport._send_message(m)
+            self.transport._send_user_message(m)
 
     def _parse_userauth_gssapi_mic(self, m):
         mic_token = m.get_string()
@@ -1032,7 +1032,7 @@ class AuthOnlyHandler(AuthHandler):
         # untouched code also uses that method and we might end up
         # double-locking (?) but 4.0 would be a good time to revisit.
         with self.transport.lock:
-            self.transport._send_message(m)
+            self.transport._send_user_message(m)
         # We have cut out the higher level event args, but self.auth_event is
         # still required for self.wait_for_response to function correctly (it's
         # the mechanism used by the auth success/failure handlers, the abort
